@@ -102,6 +102,7 @@ class Translator:
         self.externs_called = set()
         self.out_funcs = {}
         self.tmp = 0
+        self.ref_params = {}       # decl id of a `const T &` scalar parameter -> name (passed as block, index, value)
         self.local_names = {}      # decl id -> python name (locals re-declared in sibling scopes get a numeric suffix)
         self.collect()
 
@@ -130,7 +131,10 @@ class Translator:
                     if c.get("kind") == "FunctionDecl" and any(x.get("kind") == "CompoundStmt" for x in c.get("inner", [])):
                         targs = [a for a in c.get("inner", []) if a.get("kind") == "TemplateArgument"]
                         if targs:   # an instantiation
-                            self.functions[self.inst_name(c)] = c
+                            nm = self.inst_name(c)
+                            while nm in self.functions:
+                                nm += "_c"      # const overload of the same template
+                            self.functions[nm] = c
 
     def inst_name(self, fn):
         targs = [a for a in fn.get("inner", []) if a.get("kind") == "TemplateArgument"]
@@ -207,6 +211,9 @@ class Translator:
     def e_DeclRefExpr(self, n):
         ref = n.get("referencedDecl", {})
         name = ref.get("name")
+        if ref.get("id") in self.ref_params:
+            p = self.ref_params[ref["id"]]
+            return f"{self.prim('c_deref')}({p}__blk, {p}__idx, {p}__val)"
         if ref.get("kind") == "EnumConstantDecl":
             return self.enum_value(ref)
         if ref.get("kind") == "FunctionDecl":
@@ -294,9 +301,9 @@ class Translator:
         if ck == "BooleanToSignedIntegral":
             return f"int({e})"
         if ck == "NullToPointer":
-            return "None"
+            return "0"
         if ck == "PointerToBoolean":
-            return f"(({e}) is not None)"
+            return f"(({e}) != 0)"
         raise Untranslatable(f"cast kind {ck} ({src_t} -> {dst_t})")
 
     def e_UnaryOperator(self, n):
@@ -361,9 +368,32 @@ class Translator:
         c, a, b = self.kids(n)
         return f"(({self.expr(a)}) if ({self.expr(c)}) else ({self.expr(b)}))"
 
+    def is_pointer(self, node):
+        t = node.get("type", {}).get("qualType", "")
+        return t.rstrip().endswith("*")
+
+    def strip_casts(self, x):
+        while x.get("kind") in ("ImplicitCastExpr", "ParenExpr") and x.get("inner"):
+            x = x["inner"][0]
+        return x
+
     def e_ArraySubscriptExpr(self, n):
         a, i = self.kids(n)
+        if self.is_pointer(self.strip_casts(a)) or self.is_pointer(a):
+            return f"{self.prim('c_load')}({self.expr(a)}, {self.expr(i)})"
         return f"{self.expr(a)}[{self.expr(i)}]"
+
+    def e_CXXNullPtrLiteralExpr(self, n):
+        return "0"
+
+    def e_CXXNewExpr(self, n):
+        if not n.get("isArray"):
+            raise Untranslatable("scalar new")
+        kids = self.kids(n)
+        size = kids[0]
+        if len(kids) > 1:
+            raise Untranslatable("new[] with an initialiser list")
+        return f"{self.prim('c_new')}({self.expr(size)})"
 
     def sizeof_type(self, t):
         t = canon(t)
@@ -590,6 +620,18 @@ class Translator:
         if k == "BinaryOperator" and n["opcode"] == "=":
             lhs, rhs = self.kids(n)
             self.note_global(lhs, ctx)
+            l0 = self.strip_casts(lhs)
+            if l0.get("kind") == "ArraySubscriptExpr":
+                a, i = self.kids(l0)
+                if self.is_pointer(self.strip_casts(a)) or self.is_pointer(a):
+                    i0 = self.strip_casts(i)
+                    if i0.get("kind") == "UnaryOperator" and i0.get("opcode") == "++" and i0.get("isPostfix"):
+                        tgt = self.kids(i0)[0]
+                        lv = self.lvalue(tgt)
+                        t = type_of(i0)
+                        return [f"{ind}{self.prim('c_store')}({self.expr(a)}, {lv}, {self.expr(rhs)})",
+                                f"{ind}{lv} = {self.prim(int_wrapper(t))}(({lv}) + 1)"]
+                    return [f"{ind}{self.prim('c_store')}({self.expr(a)}, {self.expr(i)}, {self.expr(rhs)})"]
             return [f"{ind}{self.lvalue(lhs)} = {self.expr(rhs)}"]
         if k == "CompoundAssignOperator":
             lhs, rhs = self.kids(n)
@@ -761,8 +803,18 @@ class Translator:
         params = [c for c in fn.get("inner", []) if c.get("kind") == "ParmVarDecl"]
         body = next(c for c in fn["inner"] if c.get("kind") == "CompoundStmt")
         ctx = self.new_ctx(pyname)
+        plist = []
+        for p in params:
+            raw = p.get("type", {}).get("qualType", "")
+            t = type_of(p)
+            if raw.rstrip().endswith("&") and "const" in raw and kind_of_type(t) in ("int", "real", "bool"):
+                # a reference to a scalar may alias a heap cell: passed as (block, index, value); block 0 = not a heap cell
+                self.ref_params[p["id"]] = p["name"]
+                plist += [(p["name"] + "__blk", "int"), (p["name"] + "__idx", "int"), (p["name"] + "__val", t)]
+            else:
+                plist.append((p["name"], t))
         lines = self.block(body, "    ", ctx)
-        return self.assemble(pyname, [(p["name"], type_of(p)) for p in params], lines, ctx, canon(fn["type"]["qualType"].split("(")[0]))
+        return self.assemble(pyname, plist, lines, ctx, canon(fn["type"]["qualType"].split("(")[0]))
 
     def fragment(self, fn_name, begin="__VERIF_BEGIN", end="__VERIF_END", pyname="frag", params=()):
         fn = self.functions[fn_name]
